@@ -21,9 +21,16 @@
       na_valid  NewAdmin parses as bech32
       md_valid  bank Metadata.Validate() = nil
       target    "" (default) | an address that parses, given as the account it decodes to | unparsable
+    MESSAGE CARRIERS (second half of the file): a token-factory message reaches its handler either as
+    a message of the transaction, or nested in an authz MsgExec (any depth; x/authz DispatchActions:
+    the grantee's own messages are accepted implicitly, anybody else's need a grant), or dispatched
+    by a CosmWasm contract (app/wasmext handleSdkMessage: ValidateBasic, every signer of the
+    dispatched message must be the contract — WHATEVER the message type, wrappers included — then
+    the message router), or any combination.  Trees and dispatcher: Nib.C17.MsgTree.
     No proofs in this file. *)
 From Coq Require Import List Bool Arith ZArith String Ascii.
 Import ListNotations.
+Require Import Nib.C17.MsgTree.
 Local Open Scope string_scope.
 Local Open Scope Z_scope.
 
@@ -198,3 +205,162 @@ Definition sender_of (o : op) : string :=
   | Create s _ | Mint s _ _ _ _ | Burn s _ _ _ _ | ChangeAdmin s _ _ _ | SetMeta s _ _ | BurnNative s _ _ _ => s
   | Reimport => EmptyString
   end.
+
+(* ================================================================== message carriers *)
+
+(** leaf message kinds, as authz grants (by message type url) tell them apart *)
+Definition K_CREATE := 0%nat.
+Definition K_MINT := 1%nat.
+Definition K_BURN := 2%nat.
+Definition K_ADMIN := 3%nat.
+Definition K_META := 4%nat.
+Definition K_BURNNATIVE := 5%nat.
+Definition K_REIMPORT := 6%nat.
+Definition K_GRANT := 7%nat.
+Definition K_REVOKE := 8%nat.
+
+Definition op_kind (o : op) : nat :=
+  match o with
+  | Create _ _ => K_CREATE | Mint _ _ _ _ _ => K_MINT | Burn _ _ _ _ _ => K_BURN
+  | ChangeAdmin _ _ _ _ => K_ADMIN | SetMeta _ _ _ => K_META | BurnNative _ _ _ _ => K_BURNNATIVE
+  | Reimport => K_REIMPORT
+  end.
+
+(** Accounts are small naturals (the harness numbers them; "@i" is the bech32 string of account i,
+    "@Ui" its upper-case spelling).  A token-factory leaf carries the account its Sender string
+    decodes to (what GetSigners() returns — computed by the implementation's own code). *)
+Inductive leaf :=
+| LOp (sgn : addr) (o : op)
+| LGrant (granter grantee : addr) (k : mkind)     (* authz.MsgGrant, GenericAuthorization for type k, no expiry *)
+| LRevoke (granter grantee : addr) (k : mkind).   (* authz.MsgRevoke *)
+
+Definition leaf_signer (l : leaf) : addr :=
+  match l with LOp a _ => a | LGrant a _ _ => a | LRevoke a _ _ => a end.
+Definition leaf_kind (l : leaf) : nat :=
+  match l with LOp _ o => op_kind o | LGrant _ _ _ => K_GRANT | LRevoke _ _ _ => K_REVOKE end.
+(** ValidateBasic beyond what [step] itself refuses: MsgGrant / MsgRevoke need granter <> grantee *)
+Definition leaf_basic (l : leaf) : bool :=
+  match l with LOp _ _ => true | LGrant a b _ | LRevoke a b _ => negb (Nat.eqb a b) end.
+
+Definition msg := tree leaf.
+Definition tsigner : msg -> addr := signer leaf leaf_signer.
+Definition tkind : msg -> mkind := kind_of leaf leaf_kind.
+Definition tbasic : msg -> bool := basic leaf leaf_basic.
+
+(** authz grants: (granter, grantee, message type) *)
+Definition gst := list (addr * addr * mkind).
+
+Definition grant_eqb (x y : addr * addr * mkind) : bool :=
+  match x, y with (a, b, k), (a', b', k') => Nat.eqb a a' && Nat.eqb b b' && mkind_eqb k k' end.
+
+Definition granted_g (G : gst) (granter grantee : addr) (k : mkind) : bool :=
+  existsb (grant_eqb (granter, grantee, k)) G.
+
+Definition grant_add (G : gst) (g : addr * addr * mkind) : gst :=
+  if existsb (grant_eqb g) G then G else g :: G.
+Definition grant_del (G : gst) (g : addr * addr * mkind) : gst :=
+  filter (fun x => negb (grant_eqb g x)) G.
+
+(** token-factory ledger + authz grants *)
+Record wst := { tf : st; gr : gst }.
+
+Definition wgranted (s : wst) : addr -> addr -> mkind -> bool := granted_g (gr s).
+
+(** the handler of a leaf: the token-factory msg server, authz Grant (SaveGrant) / Revoke (DeleteGrant
+    fails when there is no such grant) *)
+Definition leaf_run (blocked : list string) (s : wst) (l : leaf) : option wst :=
+  match l with
+  | LOp _ o => match step blocked (tf s) o with Some t' => Some {| tf := t'; gr := gr s |} | None => None end
+  | LGrant a b k => if Nat.eqb a b then None else Some {| tf := tf s; gr := grant_add (gr s) (a, b, k) |}
+  | LRevoke a b k =>
+      if negb (Nat.eqb a b) && granted_g (gr s) a b k
+      then Some {| tf := tf s; gr := grant_del (gr s) (a, b, k) |} else None
+  end.
+
+(** what the code is, per generated facts (Gen/C15Facts.v [wasm_dispatch_events], read by
+    Sites.v [wasm_signer_checked]): does handleSdkMessage compare every signer of the dispatched
+    message ITSELF with the contract, unconditionally, before it routes the message *)
+Record wcfg := { wasm_signer : bool }.
+
+(** chain state / deployment rather than code *)
+Record world := {
+  w_reflects : addr -> addr -> bool;   (* contract -> sender -> does the contract dispatch the given messages *)
+  w_gov : addr;
+  w_ica_acct : addr -> bool;
+  w_ica_allow : mkind -> bool
+}.
+
+Definition wasm_admits (c : wcfg) (ctr : addr) (t : msg) : bool :=
+  negb (wasm_signer c) || Nat.eqb (tsigner t) ctr.
+
+Definition trun (c : wcfg) (w : world) (blocked : list string) : msg -> wst -> option wst :=
+  MsgTree.run leaf leaf_signer leaf_kind wst leaf_basic (leaf_run blocked) wgranted (w_reflects w) (wasm_admits c)
+      (w_gov w) (w_ica_acct w) (w_ica_allow w).
+
+Definition trun_all (c : wcfg) (w : world) (blocked : list string) (ms : list msg) (s : wst) : option wst :=
+  seq_opt (trun c w blocked) (fun _ _ => true) ms s.
+
+(** one DeliverTx: the ante handler runs ValidateBasic of every message (MsgExec validates what it
+    carries) and verifies the signatures of the signers of the TOP-LEVEL messages (every tx of the
+    harness is signed by them); then baseapp.runMsgs on a branch, all or nothing *)
+Definition deliver_ttx (c : wcfg) (w : world) (blocked : list string) (s : wst) (tx : list msg) : wst * bool :=
+  match tx with
+  | [] => (s, false)
+  | _ => if forallb tbasic tx
+         then match trun_all c w blocked tx s with Some s' => (s', true) | None => (s, false) end
+         else (s, false)
+  end.
+
+(** the token-factory messages a tx executes, in order (grants / revocations dropped) *)
+Definition leaf_ops (l : leaf) : list op := match l with LOp _ o => [o] | _ => [] end.
+Definition flat_ops (tx : list msg) : list op :=
+  flat_map (fun t => flat_map leaf_ops (exec_leaves leaf t)) tx.
+
+(** THE AUTHORITY WALK — the specification of who may stand behind a nested message, over the grant
+    set alone: the same dispatcher with token-factory handlers that never fail, every contract willing
+    to dispatch for everybody, and the admission test the property demands at a contract dispatch
+    (the dispatched message's signer IS the contract).  [walk t G = Some G'] iff every delegation edge
+    of [t] is vouched for — Exec g -> child: the child's signer is g or has granted g that message
+    type (grant set as it stands when the child starts); Wasm _ ctr -> child: the child's signer is ctr. *)
+Definition g_leaf_run (G : gst) (l : leaf) : option gst :=
+  match l with
+  | LOp _ _ => Some G
+  | LGrant a b k => Some (grant_add G (a, b, k))
+  | LRevoke a b k => Some (grant_del G (a, b, k))
+  end.
+
+Definition walk (w : world) : msg -> gst -> option gst :=
+  MsgTree.run leaf leaf_signer leaf_kind gst (fun _ => true) g_leaf_run granted_g (fun _ _ => true)
+      (fun ctr t => Nat.eqb (tsigner t) ctr) (w_gov w) (w_ica_acct w) (w_ica_allow w).
+
+Definition walk_all (w : world) (ms : list msg) (G : gst) : option gst :=
+  seq_opt (walk w) (fun _ _ => true) ms G.
+
+(** the world of the harness: one reflect contract (account 8) owned by account 0, gov module account 6,
+    no interchain accounts *)
+Definition harness_world : world :=
+  {| w_reflects := fun ctr snd => Nat.eqb ctr 8 && Nat.eqb snd 0; w_gov := 6%nat;
+     w_ica_acct := fun _ => false; w_ica_allow := fun _ => false |}.
+
+Definition cfg_checked : wcfg := {| wasm_signer := true |}.
+(** a handler that does not compare the signers of (some) dispatched messages with the contract *)
+Definition cfg_unchecked : wcfg := {| wasm_signer := false |}.
+
+(** the account a sender string names: "@i" / "@Ui" (single digit) *)
+Definition digit_of (c : ascii) : option addr :=
+  let n := nat_of_ascii c in if (48 <=? n)%nat && (n <=? 57)%nat then Some (n - 48)%nat else None.
+Definition acct_of (s : string) : option addr :=
+  match s with
+  | String "@" (String c EmptyString) => digit_of c
+  | String "@" (String "U" (String c EmptyString)) => digit_of c
+  | _ => None
+  end.
+
+(** every token-factory leaf carries the account its sender string names *)
+Definition leaf_wf (l : leaf) : bool :=
+  match l with
+  | LOp _ Reimport => true
+  | LOp a o => match acct_of (sender_of o) with Some b => Nat.eqb a b | None => false end
+  | _ => true
+  end.
+Definition msg_wf (t : msg) : bool := forallb leaf_wf (leaves leaf t).
